@@ -632,6 +632,18 @@ pub fn gen_c19(rng: &mut Rng) -> Value {
         steps.push(json!({"k":"chdir","path":"$R"}));
     }
     steps.extend(all_flav_audit(&["metadata", "read", "read_hash"]));
+    // removals of a linked entry remove the link, never the target
+    if rng.chance(1, 5) {
+        let mut rm = match rng.below(3) {
+            0 => json!({"k":"api","op":"remove_hash","addr":{"val":0,"algo":"sha256"}}),
+            1 => json!({"k":"api","op":"remove_opts","fully":true,"key":0}),
+            _ => json!({"k":"api","op":"remove","key":0}),
+        };
+        set_flav(&mut rm, flav(rng));
+        steps.push(rm);
+        let f = flav(rng);
+        steps.push(json!({"k":"audit","bin":f.0,"mode":f.1,"what":["metadata","read","read_hash"]}));
+    }
     // the target changes after linking
     let m = rng.below(8);
     match m {
